@@ -224,7 +224,7 @@ def interpret(value: AS.Expr) -> AS.EvalContext:
     recipe = proc_functional(metadata, fun, general_callable=True)
     try:
         return (yield from recipe(metadata, argv))
-    except ArithmeticError as err:  # OverflowError, ZeroDivisionError, ...
+    except (ArithmeticError, MemoryError) as err:  # OverflowError, ZeroDivisionError, ...; a result too large to allocate
         raise error.UnsuspectedHangeulArithmeticError(
             metadata, f"산술 오류가 발생했습니다: {err}"
         ) from None
